@@ -176,7 +176,12 @@ int vf::engine_main(int argc, char **argv) {
 
   // search
   std::string lastmsg;
+  // shrinking budget: after the first failure at most VF_SHRINK_LIMIT further candidates are evaluated (a count, not a
+  // clock); later candidates are answered "passes" unevaluated, so rapidcheck stops and the last real failure - already
+  // saved - is the reported case. Harnesses whose cases are expensive (threads) would otherwise shrink for minutes.
+  long shrinkLimit = getenv("VF_SHRINK_LIMIT") ? atol(getenv("VF_SHRINK_LIMIT")) : 4000, afterFailure = -1;
   bool ok = rc::check(std::string(HARNESS.id), [&]() {
+    if (afterFailure >= 0 && ++afterFailure > shrinkLimit) return;
     // up to 12*size choices. Elements are uniform over a bit width that grows with the size and is capped at the
     // nominal size: rapidcheck's integer generator is only uniform up to its nominal size (100); asked for more
     // (the container passes 12*size down) it returns values that are mostly one-bits, which skews every `% k`.
@@ -189,6 +194,7 @@ int vf::engine_main(int argc, char **argv) {
     int r = eval_case(f, &msg, &klass);
     if (r == 2) RC_DISCARD("discard");
     if (r == 1) {
+      if (afterFailure < 0) afterFailure = 0;
       lastmsg = msg;
       write_file(g_out + "/w" + g_worker + ".fail", "# " + msg + "\n" + f.text());
       RC_FAIL(msg);
